@@ -504,6 +504,34 @@ theorem sdwa_unsupported_notimpl (c : Bool) (buf : List Nat) (h8 : 8 ≤ buf.len
 /-- non-vacuity: `v_add_f32_sdwa` with the clamp bit -/
 example : sdwaUnsupported 0x2000 = true ∧ sdwaUnsupported 0x06060600 = false := by decide
 
+/-- **SDWA / DPP forms the decoder does not support are reported as undecodable.** A VOP1 or VOPC word whose SRC0
+    field says 249 (SDWA) or 250 (DPP), and a VOP2 word with SRC0 = 250 (DPP), is an error whatever follows — never a
+    mis-sized instruction or a fault (only VOP2 + SDWA is decoded, see `decode_encode`). -/
+theorem sdwa_dpp_unsupported (c : Bool) (f : Format) (row : Row) (w0 : Nat) (w1? : Option Nat) (hsz : f.size = 4)
+    (h : ((f.ft = FT_VOP1 ∨ f.ft = FT_VOPC) ∧ (extractBits w0 0 8 = 249 ∨ extractBits w0 0 8 = 250)) ∨
+         (f.ft = FT_VOP2 ∧ extractBits w0 0 8 = 250)) :
+    decodeRow c f row w0 w1? = .err := by
+  have g249 : getOperand 249 = none := by decide
+  have g250 : getOperand 250 = none := by decide
+  unfold decodeRow
+  have h8 : (f.size == 8) = false := by rw [hsz]; decide
+  simp only [h8, Bool.false_eq_true, if_false]
+  rcases h with ⟨hf | hf, hs | hs⟩ | ⟨hf, hs⟩
+  · simp [dec4, hf, FT_SOP2, FT_VOP2, FT_VOP1, decodeVOP1, hs, g249]
+  · simp [dec4, hf, FT_SOP2, FT_VOP2, FT_VOP1, decodeVOP1, hs, g250]
+  · simp [dec4, hf, FT_SOP2, FT_VOP2, FT_VOP1, FT_SOPP, FT_VOPC, decodeVOPC, hs, g249]
+  · simp [dec4, hf, FT_SOP2, FT_VOP2, FT_VOP1, FT_SOPP, FT_VOPC, decodeVOPC, hs, g250]
+  · simp [dec4, hf, FT_SOP2, FT_VOP2, decodeVOP2, hs, g250]
+
+/-- non-vacuity: `v_mov_b32_sdwa` (7e0002f9 …), `v_mov_b32_dpp` (7e0002fa …), `v_add_f32_dpp` (020000fa …) and
+    `v_cmp_lt_f32_sdwa` (7c8200f9 …) are errors; `v_add_f32_sdwa` decodes -/
+example : decode true [0xf9, 0x02, 0x00, 0x7e, 0x00, 0x06, 0x06, 0x00] = .err ∧
+    decode true [0xfa, 0x02, 0x00, 0x7e, 0x00, 0x00, 0x00, 0xff] = .err ∧
+    decode false [0xfa, 0x00, 0x00, 0x02, 0x00, 0x00, 0x00, 0xff] = .err ∧
+    decode false [0xf9, 0x00, 0x82, 0x7c, 0x00, 0x06, 0x06, 0x00] = .err ∧
+    decode false [0xf9, 0x00, 0x00, 0x02, 0x00, 0x06, 0x06, 0x06] ≠ .err := by
+  decide +kernel
+
 /-! ## The CDNA3 override table -/
 
 /-- no two `addCDNA3InstType` calls register the same (format, opcode) -/
